@@ -51,6 +51,8 @@ C09(r) ==
     whatif_optimal   |-> \A k \in DOMAIN r.rw : (r.rw[k].ok /\ PathOK(r.nodes, Range(r.rw[k].edges), r.rw[k].p)) =>
                             PathWeight(Range(r.rw[k].edges), r.rw[k].p.path) = LongestWeight(r.nodes, Range(r.rw[k].edges)),
     whatif_sets      |-> \A k \in DOMAIN r.rw : r.rw[k].ok => PathSets(r.nodes, Range(r.rw[k].edges), r.rw[k].p),
+    whatif_weights_kept |-> \A k \in DOMAIN r.rw : r.rw[k].ok =>
+                            { <<x[1], x[2], x[3]>> : x \in Range(r.rw[k].after) } = { <<e.u, e.v, e.gw>> : e \in Range(r.rw[k].edges) },
     whatif_runs      |-> \A k \in DOMAIN r.rw : r.rw[k].ok ]
 
 \* ---- C10
